@@ -257,6 +257,11 @@ def cases(draw, engines):
     if eng == "cp2k":
         c["cell_form"] = draw(st.sampled_from(["ABC", "vectors", "angles"]))  # three spellings of the same 30 A cell
         c["src_nobox"] = draw(st.booleans())
+    if eng in EXT and c["beh"]["die_at"] is None and draw(st.sampled_from([False, False, False, True])):
+        # the program idles after frame k (so it is polled while alive), then writes everything that is left and exits at once
+        c["beh"]["burst_from"] = draw(st.integers(0, 3))
+        c["beh"]["poll_hint"] = c["poll"]
+        c["beh"]["tail_sleep"] = 0.0
     if eng in EXT and draw(st.sampled_from([False, False, True])):
         # the command is a wrapper / launcher: the worker is its child and lingers after its last frame
         c["beh"]["launcher"] = True
@@ -317,6 +322,8 @@ def body(rec, c):
             classes.append("varying-box")
         if will_die:
             classes.append("program-dies-by-signal" if c["beh"].get("die_signal") else "program-dies-with-exit-code")
+        if c["beh"].get("burst_from") is not None and eng_name in EXT:
+            classes.append("program-writes-the-rest-in-one-burst-and-exits")
         if c["beh"].get("launcher") and eng_name in EXT:
             classes.append("program-is-a-launcher-with-a-worker-child")
         if len(orders) == c["maxlen"]:
